@@ -220,6 +220,8 @@ namespace ratio
         if (f.is_fact)
         { // we apply use-predicate whenever the fact becomes active..
             set_ni(lit(atm.get_sigma()));
+            if (get_solver().is_impulse(atm)) // a predicate extending Use can also be an impulse..
+                get_solver().get_impulse().apply_rule(atm);
             u_pred->apply_rule(atm);
             restore_ni();
         }
